@@ -111,6 +111,7 @@ def one(args):
             res['status'] = 'checker-crash'
             res['error'] = repr(e)[:300]
             return res
+        import stages as _st; _st.mark_known(ctx)
         v = [i for i in ctx.instances if i.verdict == 'violation']
         if v:
             res['status'] = 'reported'
